@@ -227,11 +227,20 @@ def _cf(p):
     return dict(sm=p['strength_median'], ss=p['strength_std'], lm=p['load_median'], ls=p['load_std'])
 
 
+def corpus_points():
+    path = os.path.join(common.CORPUS, 'C15', 'points.json')
+    keys = ('strength_median', 'strength_std', 'load_median', 'load_std')
+    try:
+        return [{k: float(e[k]) for k in keys} for e in json.load(open(path))]
+    except OSError:
+        return []
+
+
 def impl_relations(res, rng, n_pts, n_chain, n_lim, n_arb, n_simple):
     FP = _fp()
     R = Relations(res)
-    # ---- sampled points + chains, evaluated in parallel
-    pts = [gen_params(rng) for _ in range(n_pts)]
+    # ---- corpus (hand-picked edge cases, run first) + sampled points + chains, evaluated in parallel
+    pts = corpus_points() + [gen_params(rng) for _ in range(n_pts)]
     chains = []
     for _ in range(n_chain):
         p = gen_params(rng)
